@@ -331,7 +331,22 @@ def _run(sim, case, r):
                 sup_heard_n += 1
             trace.append('r' if not (malformed or broken or overclaim) else 'm')
         elif k == 'publish':
-            seq = sim.vl.call(inst.new_data)
+            others = [(nid, model[node_key(nid)]) for nid in ('n1', 'n2', 'n3') if model.get(node_key(nid))]
+            if op.get('then_vector') and others and mstate == 'steady' and inst.state == SvsState.SyncSteady:
+                # a peer's vector that is up to date on every node it mentions (and does not mention this node) is handled
+                # in the same loop iteration, right after the publication: the publication is still announced promptly
+                comp_ = sv_component(others)
+                name_ = BASE + [comp_, T.enc_tlv(2, b'\x00' * 32)]
+                box_ = {}
+
+                def both():
+                    box_['seq'] = inst.new_data()
+                    inst.sync_handler([memoryview(c) for c in name_], b'', lambda d: True, {})
+                sim.vl.call(both)
+                seq = box_['seq']
+                flags.add('publish-then-vector-in-one-iteration')
+            else:
+                seq = sim.vl.call(inst.new_data)
             sim.vl.settle()
             model[me_key] = model[me_key] + 1
             if seq != model[me_key] or local_now() != nz(model):
@@ -437,7 +452,7 @@ def _ops():
     recv = st.fixed_dictionaries({'op': st.just('recv'), 'entries': st.lists(_ENTRY, min_size=0, max_size=4),
                                   'via': st.sampled_from(['receive', 'handler']), 'stop_during': st.sampled_from([False, False, False, True]),
                                   'flags': st.sampled_from([[]] * 10 + [['truncated'], ['wrong-type']])})
-    publish = st.just({'op': 'publish'})
+    publish = st.fixed_dictionaries({'op': st.just('publish'), 'then_vector': st.sampled_from([False, False, True])})
     restart = st.fixed_dictionaries({'op': st.just('restart'), 'gap': st.booleans()})
     adv = st.fixed_dictionaries({'op': st.just('adv'), 'how': st.sampled_from(['0', '1ms', 'before', 'at', 'after', 'after']),
                                  'pub_on_emit': st.sampled_from([False, False, False, True])})
